@@ -437,7 +437,7 @@ def mn_mfsr(ir, instr, rd, sr):
 def mn_do_mul(ir, instr, rd, ra, arg2):
     variant = instr.name[3:]
     if variant[-1] == '.':
-        variant = variant[:-2]
+        variant = variant[:-1]
 
     if variant == 'HW':
         v1 = ra.signExtend(64)
